@@ -505,6 +505,27 @@ func ruleOneCache(c *Ctx) {
 		}
 		c.CheckAt("ONECACHE", "server-field-store:"+short(st.Fn), st.Ins, st.Fresh, "the server's replay history is replaced on an existing server (history lost across reloads)")
 	}
+	// inside the service: the history the authenticator consults is the one the service was given — it is not swapped for
+	// "none" (or for a private one) on some condition evaluated when the service is built
+	na := 0
+	for _, s := range p.CallSites(eng.Named("(*service.ReplayCache).Add")) {
+		if eng.PkgPathOf(s.Fn) != eng.Mod+"/service" || p.IsTestSupport(s.Fn) {
+			continue
+		}
+		na++
+		recv := eng.Receiver(s.Ins.(ssa.CallInstruction).Common())
+		var bad []ssa.Value
+		for _, o := range p.Origins(recv, eng.OriginOpts{ThroughConvert: true, Interproc: true}) {
+			switch x := o.(type) {
+			case *ssa.Const, *ssa.Alloc:
+				bad = append(bad, x)
+			case *ssa.Call:
+				bad = append(bad, x)
+			}
+		}
+		c.CheckAt("ONECACHE", "consulted-history-is-the-configured-one:"+short(s.Fn), s.Ins, len(bad) == 0, "the replay history consulted at authentication can be something other than the history the service was configured with ("+valsStr(p, bad)+"): handshakes checked by this service are then neither looked up in nor added to the shared history")
+	}
+	c.Floor("ONECACHE", "ReplayCache.Add calls in the service package", na, 1)
 	// every NewShadowsocksService call gets WithReplayCache(&server.field)
 	n := 0
 	for _, s := range p.CallSites(eng.Named("service.NewShadowsocksService")) {
